@@ -24,9 +24,10 @@ FUNCTIONS = [
     "flow.record.stream:record_stream",
 ]
 BOUNDS = {
-    "grammar": "8 operators x missing operand left/right/both x 10 kinds of other operand x 4 contexts x 2 engines (complete)",
+    "grammar": "8 operators x missing operand left/right/both x 12 kinds of other operand (incl. typed field matchers) x 4 contexts x 2 engines (complete), "
+    "each evaluated by a selector object that matched a same-name record HAVING the fields before",
     "values": "other operand when it is a field: all ints, all strings <= 2 chars, both booleans, None or any int",
-    "stream": "3 records of two types per source, 2 sources, field values symbolic",
+    "stream": "3 records of two layouts per source (different type names; the same type name in both orders), 2 sources, field values symbolic",
 }
 STUBS = ["stream level: RecordStreamReader.read / RecordReader hand out prepared records (decoding is C01/C03)"]
 OUTSIDE = [
@@ -53,6 +54,9 @@ KINDS = {
     "f_opt": ("r.o", False, True),
     "f_list": ("[r.n, r.s]", True, True),
     "missing": ("r.yy", True, False),
+    # typed field matchers ("all fields of that type") as the other operand
+    "T_str": ("Type.string", True, True),
+    "T_int": ("Type.varint", True, True),
 }
 CONTEXTS = {"bare": "{}", "and": "({}) and True", "or": "({}) or False", "not": "not ({})"}
 
@@ -68,6 +72,8 @@ def table():
                 a, b = ("r.zz", text) if pos == "left" else (text, "r.zz")
                 if op in ("in", "not in") and pos == "left" and not container:
                     continue  # 'x in 3' is ill-typed for every record: not asserted
+                if kind.startswith("T_") and pos == "left" and op in ("in", "not in"):
+                    continue  # 'r.zz in Type.string': the typed matcher is no container of operands (TypeError for every record)
                 core = f"{a} {op} {b}"
                 for ctx, tmpl in CONTEXTS.items():
                     if not symbolic and ctx != "bare" and kind not in ("int", "list"):
@@ -79,6 +85,14 @@ def table():
     return rows
 
 
+def earlier_record():
+    """a record of the same type NAME whose layout does declare zz and yy (schema evolution within one stream)"""
+    from flow.record import RecordDescriptor
+
+    E = RecordDescriptor(grammar.RECNAME, [("varint", "zz"), ("string", "yy"), ("varint", "n"), ("string", "s")])
+    return E(3, "abc", 3, "abc")
+
+
 def comparison(expr: str, engine: str, expected: bool):
     from flow.record.selector import CompiledSelector, Selector
 
@@ -86,6 +100,7 @@ def comparison(expr: str, engine: str, expected: bool):
 
     C07.descriptor()
     sel = Selector(expr) if engine == "i" else CompiledSelector(expr)
+    earlier = earlier_record()
 
     def check(n: int, s: str, b: bool, o: Optional[int]) -> bool:
         """
@@ -94,6 +109,11 @@ def comparison(expr: str, engine: str, expected: bool):
         if len(s) > 2:
             return True
         rec = C07.build_record(n, 0, s, "", b, o)
+        # one selector object serves a whole stream: a record of the SAME type name that does have the fields came before
+        try:
+            sel.match(earlier)
+        except Exception:  # noqa: BLE001
+            pass
         return bool(sel.match(rec)) == expected
 
     return check
@@ -141,20 +161,21 @@ def helper(expr: str, engine: str):
 STREAM_PROGRAMS = ["r.n == 2", "r.n != 2", "r.n < 2", "r.n <= 2", "r.n > 2", "r.n >= 2", "r.n in [1, 2]", "2 < r.n", "2 >= r.n", "r.n != 2 and r.n != 3", "r.n > 1 and r.n < 5", "r.n == 1 or r.n >= 3"]
 
 
-def _descs():
+def _descs(same=False):
     from flow.record import RecordDescriptor
 
     A = RecordDescriptor("test/a", [("varint", "n"), ("string", "s")])
-    B = RecordDescriptor("test/b", [("string", "other")])
+    B = RecordDescriptor("test/a" if same else "test/b", [("string", "other")])
     return A, B
 
 
-def stream(expr: str, engine: str, via: str):
-    """Mixed stream: A(n1) B A(n2) | B A(n3): exactly the A records satisfying the condition come out."""
+def stream(expr: str, engine: str, via: str, same: bool = False, order: int = 0):
+    """Mixed stream: A(n1) B A(n2) | B A(n3) (order 1: B A(n1) A(n2) | A(n3) B): exactly the A records satisfying the condition come
+    out. same=True: both layouts carry the same type name (one selector object, two layouts under one name)."""
     import flow.record.stream as S
     from flow.record.selector import CompiledSelector, Selector
 
-    A, B = _descs()
+    A, B = _descs(same)
     ref = compile(expr, "<ref>", "eval")
 
     def mkreader(recs, selector):
@@ -185,7 +206,7 @@ def stream(expr: str, engine: str, via: str):
         for r, v in ((a1, n1), (a2, n2), (a3, n3)):
             object.__setattr__(r, "n", v)
         b1, b2 = B("p", _generated=1), B("q", _generated=1)
-        sources = {"one": [a1, b1, a2], "two": [b2, a3]}
+        sources = {"one": [a1, b1, a2], "two": [b2, a3]} if order == 0 else {"one": [b1, a1, a2], "two": [a3, b2]}
         sel = Selector(expr) if engine == "i" else CompiledSelector(expr)
 
         class R:
@@ -223,6 +244,9 @@ def obligations(tier, seed):
         for eng in "ic":
             for via in ("reader", "record_stream"):
                 obs.append(ob(f"stream/{via}/{eng}/{i}:{e}", "xh", "stream", {"expr": e, "engine": eng, "via": via}, timeout=to * 2, group=f"stream/{via}", bounds="n1, n2, n3: all ints"))
+                for order in (0, 1):
+                    obs.append(ob(f"stream-samename/{via}/{eng}/order{order}/{i}:{e}", "xh", "stream", {"expr": e, "engine": eng, "via": via, "same": True, "order": order}, timeout=to * 2,
+                                  group=f"stream-samename/{via}", bounds="n1, n2, n3: all ints; both layouts under one type name"))
     return obs
 
 
@@ -255,7 +279,12 @@ def replay(res):
         for vals in tried:
             rec = D(vals["n"], 0, vals["s"], "", vals["b"], vals["o"])
             try:
-                got = bool(cls(a["expr"]).match(rec))
+                sel = cls(a["expr"])
+                try:
+                    sel.match(earlier_record())
+                except Exception:  # noqa: BLE001
+                    pass
+                got = bool(sel.match(rec))
                 raised = None
             except Exception as e:  # noqa: BLE001
                 got, raised = None, f"{type(e).__name__}: {e}"
@@ -263,7 +292,7 @@ def replay(res):
                 return {
                     "reproduced": True,
                     "key": _key(a["expr"], engine),
-                    "what": f"{ename}({a['expr']!r}) on a record without field 'zz' (n={vals['n']!r}, s={vals['s']!r}, b={vals['b']!r}, o={vals['o']!r}): "
+                    "what": f"{ename}({a['expr']!r}) on a record without field 'zz', after a record of the same type name that has it (n={vals['n']!r}, s={vals['s']!r}, b={vals['b']!r}, o={vals['o']!r}): "
                     + (f"raised {raised}" if raised else f"evaluated to {got}, expected {a['expected']}"),
                     "input": {"expr": a["expr"], "engine": engine, "values": vals},
                 }
@@ -291,14 +320,18 @@ def replay(res):
 
         v = cex_args(res, ["n1", "n2", "n3"])
         candidates = [[v.get("n1", 0), v.get("n2", 0), v.get("n3", 0)], [1, 2, 3], [2, 2, 5], [0, 3, 2]]
-        A, B = _descs()
+        A, B = _descs(a.get("same", False))
+        order = a.get("order", 0)
         for ns_ in candidates:
             with tempdir() as d:
                 p1, p2 = d + "/one.records", d + "/two.records"
-                w = RecordWriter(p1)
-                w.write(A(ns_[0], "x")); w.write(B("p")); w.write(A(ns_[1], "y")); w.flush(); w.close()
-                w = RecordWriter(p2)
-                w.write(B("q")); w.write(A(ns_[2], "z")); w.flush(); w.close()
+                one = [A(ns_[0], "x"), B("p"), A(ns_[1], "y")] if order == 0 else [B("p"), A(ns_[0], "x"), A(ns_[1], "y")]
+                two = [B("q"), A(ns_[2], "z")] if order == 0 else [A(ns_[2], "z"), B("q")]
+                for p, recs in ((p1, one), (p2, two)):
+                    w = RecordWriter(p)
+                    for r_ in recs:
+                        w.write(r_)
+                    w.flush(); w.close()
                 sel = cls(a["expr"])
                 got = [(r._desc.name, getattr(r, "n", None)) for r in record_stream([p1, p2], sel)]
 
@@ -313,8 +346,8 @@ def replay(res):
                 if got != exp:
                     return {
                         "reproduced": True,
-                        "key": f"C08/stream/{engine}/{a['expr']}",
-                        "what": f"record_stream over a mixed stream with {ename}({a['expr']!r}) and n = {ns_}: got {got}, expected {exp}",
+                        "key": f"C08/stream/{engine}/{a['expr']}" + ("/samename" if a.get("same") else ""),
+                        "what": f"record_stream over a mixed stream{' (both layouts under one type name)' if a.get('same') else ''} with {ename}({a['expr']!r}) and n = {ns_}: got {got}, expected {exp}",
                         "input": {"expr": a["expr"], "n": ns_},
                     }
         return {"reproduced": False, "what": "mixed stream filtered as specified"}
